@@ -108,26 +108,26 @@ macro_rules! manifest_frames_harness {
     };
 }
 
-// @harness id=c10_manifest_frames_json props=C10 tier=thorough cap=2700 unwindset=do_manifest_json@all:2
+// @harness id=c10_manifest_frames_json props=C10 tier=attempt cap=2700 unwindset=do_manifest_json@all:2
 // @desc one real step of do_manifest_json (std.toString, std.manifestJson*, string coercion) on a one-element array and on a one-field object with an unevaluated element (the per-element code is the loop body; more elements repeat it), from ANY trace length: every element's thunk is forced and its child ManifestJson state runs at trace length + 1, inside a counted frame of its own, and the frames are balanced - so nesting depth of a manifested value is bounded by the frame limit
 // @bound arrays / one-layer objects of 1 element; every loop of the manifester unwound to 2 iterations (unwinding assertions on) (get_fields_order stubbed by 'return the cached list'); default to-string format, depth 0
 // @funcs Evaluator::do_manifest_json, Evaluator::push_trace_item, Evaluator::delay_trace_item, ObjectData::get_visible_fields_order, Program::find_object_field_thunk
 // @out the text produced (String::push / push_str / str::repeat are stubbed by no-ops: only the scheduling is decided); other formats of the JSON manifester
 manifest_frames_harness!(c10_manifest_frames_json, 0);
 
-// @harness id=c10_manifest_frames_yaml props=C10 tier=thorough cap=2700 unwindset=do_manifest_yaml_doc@all:2
+// @harness id=c10_manifest_frames_yaml props=C10 tier=attempt cap=2700 unwindset=do_manifest_yaml_doc@all:2
 // @desc as c10_manifest_frames_json for do_manifest_yaml_doc (std.manifestYamlDoc / Stream, -y output)
 // @bound arrays / one-layer objects of 1 element; every loop of the manifester unwound to 2 iterations (unwinding assertions on); top level, unquoted keys
 // @funcs Evaluator::do_manifest_yaml_doc, Evaluator::push_trace_item, Evaluator::delay_trace_item
 manifest_frames_harness!(c10_manifest_frames_yaml, 1);
 
-// @harness id=c10_manifest_frames_python props=C10 tier=thorough cap=2700 unwindset=do_manifest_python@all:2
+// @harness id=c10_manifest_frames_python props=C10 tier=attempt cap=2700 unwindset=do_manifest_python@all:2
 // @desc as c10_manifest_frames_json for do_manifest_python (std.manifestPython / manifestPythonVars)
 // @bound arrays / one-layer objects of 1 element; every loop of the manifester unwound to 2 iterations (unwinding assertions on)
 // @funcs Evaluator::do_manifest_python, Evaluator::push_trace_item, Evaluator::delay_trace_item
 manifest_frames_harness!(c10_manifest_frames_python, 2);
 
-// @harness id=c10_manifest_frames_toml props=C10 tier=thorough cap=2700 unwindset=do_manifest_toml_value@all:2
+// @harness id=c10_manifest_frames_toml props=C10 tier=attempt cap=2700 unwindset=do_manifest_toml_value@all:2
 // @desc as c10_manifest_frames_json for do_manifest_toml_value (inline arrays and tables of std.manifestToml*)
 // @bound arrays / one-layer objects of 1 element; every loop of the manifester unwound to 2 iterations (unwinding assertions on); depth 0, not inside an inline table
 // @funcs Evaluator::do_manifest_toml_value, Evaluator::push_trace_item, Evaluator::delay_trace_item
